@@ -23,6 +23,8 @@ fam('ticket', depth=5, maxstack=4, envs=[{'SELF_ADDRESS': SELF}],
            # tickets that arrived from outside (parameter / storage): same contents, minted by somebody else / by this contract
            # a comb whose leaf type UPDATE n changes from ticket-free to ticket-carrying under the same outer constructor (option nat -> option (ticket string))
            (S(STR, s('c')), S(NAT, i(3)), S(P(OPT(NAT), NAT), p(some(i(1)), i(5)))),
+           # contents of a union type: the same side with different payloads are different contents
+           (S(('ticket', OR(STR, NAT)), ('t', SELF, left(s('c')), 3)), S(('ticket', OR(STR, NAT)), ('t', SELF, left(s('d')), 2))),
            (S(TKT, TK(OTHER, 'c', 3)), S(TKT, TK(SELF, 'c', 2))), (S(TKT, TK(OTHER, 'c', 3)), S(TKT, TK(OTHER, 'c', 1)), S(STR, s('c')), S(NAT, i(2)))],
     alphabet=ALPH)
 
@@ -99,6 +101,29 @@ def check_no_unpack(ctx):
             ctx.mismatch('C20:unpack-forges-ticket:%s' % name, 'UNPACK %s of bytes yields %s: a ticket that no TICKET instruction minted' % (json.dumps(tj), res), {'family': 'unpack', 'type': name})
 
 
+def check_no_push(ctx):
+    """negative test: a ticket has no literal - PUSH at a type holding a ticket is refused (tickets come from TICKET only)"""
+    from pytezos.michelson.instructions.base import MichelsonInstruction
+    from pytezos.michelson.stack import MichelsonStack
+    from pytezos.context.impl import ExecutionContext
+    T = {'prim': 'ticket', 'args': [{'prim': 'string'}]}
+    lit = terms_value(('ticket', STR), TK(SELF, 'c', 1000))
+    for name, tj, v in (('ticket', T, lit), ('option', {'prim': 'option', 'args': [T]}, {'prim': 'Some', 'args': [lit]}),
+                        ('pair', {'prim': 'pair', 'args': [{'prim': 'nat'}, T]}, {'prim': 'Pair', 'args': [{'int': '1'}, lit]}), ('list', {'prim': 'list', 'args': [T]}, [lit])):
+        st = MichelsonStack()
+        ctx.count(('push-ticket', name), nontrivial=True)
+        try:
+            MichelsonInstruction.match({'prim': 'PUSH', 'args': [tj, v]}).execute(st, [], ExecutionContext())
+        except Exception:   # noqa: refused
+            continue
+        ctx.mismatch('C20:push-forges-ticket:%s' % name, 'PUSH %s %s is accepted: a ticket that no TICKET instruction minted' % (json.dumps(tj), json.dumps(v)), {'family': 'push', 'type': name})
+
+
+def terms_value(t, v):
+    from .. import terms
+    return terms.value_json(t, v)
+
+
 def replay_fn(ctx, prop, fname, st):
     cls = C01.replay_state(ctx, prop, fname, st)
     if cls is None and st['status'] == 'running':
@@ -120,6 +145,7 @@ def run(ctx):
     C01.ASPECTS['C20'] = {'status', 'value', 'type', 'failwith-value'}
     C01.run_families(ctx, 'C20', 'ticket', {'ticket': f}, extra_inv='INVARIANT NoZeroTicket\nPROPERTY TicketConservation', replay_fn=replay_fn)
     check_no_unpack(ctx)
+    check_no_push(ctx)
     ctx.exhaustive = True
 
 
